@@ -102,6 +102,8 @@ fn hist_cfg_for(seed: u64, m: &HashMap<String, String>) -> hist::HistCfg {
         walks: m.contains_key("walks"),
         early_reopen: m.contains_key("early-reopen"),
         jitter: arg(m, "jitter", 0),
+        jitter_point: m.get("jitter-point").cloned().unwrap_or_default(),
+        jitter_us: arg(m, "jitter-us", 0),
     }
 }
 
